@@ -471,6 +471,13 @@ def _update_zo_file(
     )
     zo_path.write_text("\n".join(zlines))
 
-    _write_file_hash_to_disk(
-        _get_file_hash_path(zdir), _get_file_hash_map(zdir)
+    # Only vouch for the file we just rewrote: any other file might have been
+    # edited since it was last indexed (e.g. when reindexing explicit paths).
+    file_hash_path = _get_file_hash_path(zdir)
+    file_to_hash: dict[str, str] = (
+        json.loads(file_hash_path.read_bytes())
+        if file_hash_path.exists()
+        else {}
     )
+    file_to_hash.update(_get_file_hash_map(zdir, paths=[zo_path]))
+    _write_file_hash_to_disk(file_hash_path, file_to_hash)
